@@ -358,7 +358,8 @@ Definition step (c : cfg) (v : variant) (f : fsm) (e : Ev) : fsm :=
   | EInput code id k data => input c v code id k data f
   end.
 
-(* The timer callback before bbcb995 (time.AfterFunc(f.restartTime, f.Timeout)): Timeout() runs
+(* The exported method Timeout() of /repo HEAD (no caller outside tests), which was also the timer
+   callback before bbcb995 (time.AfterFunc(f.restartTime, f.Timeout)): Timeout() runs
    whether or not the timer is still the pending one, and f.timer is left as it is. *)
 Definition raw_timeout (f : fsm) : fsm := timeout (clear_out f).
 (* A timer that was pending in state f before an event, where f' is the state after the event, is
